@@ -240,26 +240,43 @@ def judge(case, o):
     return "skipped", o.monitor
 
 
+def describe(frames):
+    return ["%s (%s:%d)" % (f, short_loc(l)[0], short_loc(l)[1]) for f, l in frames]
+
+
 def attribute(case, o, kind, sym, parser_y):
-    """Stable key for a failing trace from the allocation (or free) site."""
+    """Stable keys for a failing trace, one per distinct allocation function among the leaked blocks
+    (or the function performing the bad free): [(key, [frame descriptions])]."""
     oc = outcome_class(o)
     if not o.sites:
-        return "%s:%s:unattributed" % (kind, oc), []
-    blk, addrs = o.sites[0]
-    frames = sym.resolve(addrs)
-    fn = frames[0][0]
-    desc = ["%s (%s:%d)" % (f, short_loc(l)[0], short_loc(l)[1]) for f, l in frames]
-    extra = ""
-    for f, l in frames[1:]:
-        src, line = short_loc(l)
-        if f == "yyparse" and src.endswith("parser.y"):
-            nt = nonterminal_at(parser_y, line)
-            if nt:
-                extra = ":" + nt
+        return [("%s:%s:unattributed" % (kind, oc), [])]
+    if kind != "leak":
+        blk, addrs = o.sites[-1]              # where the rejected free/realloc happened
+        frames = sym.resolve(addrs)
+        desc = ["freed in " + " <- ".join(describe(frames)[:4])]
+        if len(o.sites) > 1:
+            desc.append("allocated in " + " <- ".join(describe(sym.resolve(o.sites[0][1]))[:4]))
+        m = re.match(r"reject pos=\d+ (\S+)", o.monitor or "")
+        return [("%s:%s:%s" % (m.group(1) if m else kind, oc, frames[0][0]), desc)]
+    out, seen = [], set()
+    for blk, addrs in o.sites:
+        frames = sym.resolve(addrs)
+        fn = frames[0][0]
+        extra = ""
+        for f, l in frames[1:]:
+            src, line = short_loc(l)
+            if f == "yyparse" and src.endswith("parser.y"):
+                nt = nonterminal_at(parser_y, line)
+                if nt:
+                    extra = ":" + nt
+                break
+        key = "leak:%s:%s%s" % (oc, fn, extra)
+        if key not in seen:
+            seen.add(key)
+            out.append((key, describe(frames)))
+        if len(out) >= 6:
             break
-    if kind == "leak":
-        return "leak:%s:%s%s" % (oc, fn, extra), desc
-    return "%s:%s:%s" % (kind, oc, fn), desc
+    return out
 
 
 # ---------------------------------------------------------------------------------------------
@@ -474,8 +491,8 @@ def _run(ctx, drv, mon, workdir, t0):
         for c, o, k in failing:
             o2 = obs2.get(c.id)
             use = o2 if (o2 is not None and judge(c, o2)[0] == k) else o
-            key, desc = attribute(c, use, k, sym, parser_y)
-            findings.setdefault(key, []).append((c, use, k, desc))
+            for key, desc in attribute(c, use, k, sym, parser_y):
+                findings.setdefault(key, []).append((c, use, k, desc))
     known = set(k.get("key") for k in ctx.known if k.get("status", "known") == "known")
     shrink_budget = 30 if thorough else 10
     for key in sorted(findings):
@@ -492,7 +509,7 @@ def _run(ctx, drv, mon, workdir, t0):
                 for cc in cs:
                     oo = ob.get(cc.id)
                     kk, _ = judge(cc, oo)
-                    out.append(kk == k and attribute(cc, oo, kk, sym, parser_y)[0] == key)
+                    out.append(kk == k and key in [x[0] for x in attribute(cc, oo, kk, sym, parser_y)])
                 return out
             data, tested = c05.ddmin(c.data, test, budget_rounds=14 if thorough else 9)
         what = {"leak": "blocks allocated by libnev code are still allocated after program_delete/vm_delete returned",
@@ -520,6 +537,9 @@ def _run(ctx, drv, mon, workdir, t0):
             continue
         status, text = r
         kk = lsan_key(text)
+        if kk is not None and kk[0].startswith("lsan-leak") and "@@OUTCOME" not in text:
+            ls_counts["exit-no-teardown-not-judged"] = ls_counts.get("exit-no-teardown-not-judged", 0) + 1
+            continue        # exit(1)/exit(2) inside libnev: program_delete/vm_delete were never reached
         if kk is None:
             if status in ("0", "1"):
                 ls_counts["clean"] += 1
